@@ -11,7 +11,7 @@ GRAPH_STREAM = dict(
     # which op lines matter to which property when only the correspondence (not a monitor) breaks
     # C06: Kahn's sort reads the derived fields (Dependents, degrees): `Synced` is a hypothesis of topo_valid, so a
     # divergence of those queries (dependents, roots, leaves, node) breaks C06's tie as well
-    prop_ops=dict(C05=r'^g (detect|add |addd |new)', C06=r'^g (topo|addd |add |new|detect|rm|dependents|roots|leaves|node)', C19=None),
+    prop_ops=dict(C05=r'^g (detect|add |addd |new|topo)', C06=r'^g (topo|addd |add |new|detect|rm|dependents|roots|leaves|node)', C19=None),
     rule='graph op sequences: corpus, every digraph on <=N nodes (deferred and immediate construction), every op '
          'sequence of length L over 3 identities with all queries after each step, random sequences over a pool of 7 '
          '(type,key,group) identities, random 7-node DAGs/cyclic graphs; a scenario is non-trivial when it has at least one edge',
